@@ -1015,12 +1015,17 @@ func propC07Ranges(c *Ctx) {
 			if g.Pkg != fn.Pkg {
 				return
 			}
-			_, lowOK := cmpEdges(g, func(b *ssa.BinOp) bool { return b.Op == token.LSS && isBlockNum(b.X) && is(b.Y, pStart) })
-			_, highOK := cmpEdges(g, func(b *ssa.BinOp) bool {
-				return (b.Op == token.GEQ || b.Op == token.GTR) && isBlockNum(b.X) && isUpper(b.Y)
-			})
+			// the tests may stand in the function of the attach step or in front of the call that leads to it
+			var lowOK, highOK []Edge
+			for _, tf := range reg.Funcs() {
+				_, lo := cmpEdges(tf, func(b *ssa.BinOp) bool { return b.Op == token.LSS && isBlockNum(b.X) && is(b.Y, pStart) })
+				_, hi := cmpEdges(tf, func(b *ssa.BinOp) bool {
+					return (b.Op == token.GEQ || b.Op == token.GTR) && isBlockNum(b.X) && isUpper(b.Y)
+				})
+				lowOK, highOK = append(lowOK, lo...), append(highOK, hi...)
+			}
 			n++
-			ok := len(lowOK) > 0 && len(highOK) > 0 && guardedByEdges(g, in, lowOK) && guardedByEdges(g, in, highOK)
+			ok := len(lowOK) > 0 && len(highOK) > 0 && reg.Guarded(in, lowOK) && reg.Guarded(in, highOK)
 			c.Check("R7.5", fmt.Sprintf("%s/range-test-before-attach#%d", fnName(fn), n), instrPos(in), ok, spec.attDesc+" happens only for block numbers tested against [start, start+limit]")
 		})
 	}
